@@ -19,7 +19,8 @@ EXPLANATION = (
     "edge cannot reach the Ok construction, and the stored properties are the validated ones.  (d) Sibling format table "
     "encode/decode: '=' is written iff the value is Some; the decoder splits at the FIRST '=' (Iterator::position) and "
     "yields None iff there is none.  (e) first-occurrence-wins with case-insensitive keys in decode_txt_unique and the slice "
-    "input, case-insensitive lookup in TxtProperties::get.  Decides these structural clauses, not the byte-for-byte round trip.")
+    "input, case-insensitive lookup in TxtProperties::get.  Decides these structural clauses, not the byte-for-byte round trip."
+    " (i) Every turn of decode_txt's loop moves the cursor past the whole string it has read. (j) The duplicate filter is not one of Vec's neighbours-only dedup* methods.")
 UNDECIDED = ["byte-for-byte equality of keys, values and order end to end (value round trip over all inputs)",
              "behaviour of the end-to-end path through the cache and ResolvedService"]
 ASSUMPTIONS = ["allocation failure is out of scope", "std functions behave as documented (library model table in mdnsverif/libmodel.py)"]
